@@ -322,9 +322,13 @@ func runMemflush(args []string) error {
 			case "data":
 				w.VerifWrapWriters(func(d recordio.WriterI) recordio.WriterI { return &countingFailData{WriterI: d, at: c.Pos, hit: &hit} }, nil)
 			case "dataclose":
-				w.VerifWrapWriters(func(d recordio.WriterI) recordio.WriterI { return &countingFailData{WriterI: d, at: -1, hit: &hit, failClose: true} }, nil)
+				w.VerifWrapWriters(func(d recordio.WriterI) recordio.WriterI {
+					return &countingFailData{WriterI: d, at: -1, hit: &hit, failClose: true}
+				}, nil)
 			case "indexclose":
-				w.VerifWrapWriters(nil, func(i rProto.WriterI) rProto.WriterI { return &countingFailIndex{WriterI: i, at: -1, hit: &hit, failClose: true} })
+				w.VerifWrapWriters(nil, func(i rProto.WriterI) rProto.WriterI {
+					return &countingFailIndex{WriterI: i, at: -1, hit: &hit, failClose: true}
+				})
 			default:
 				w.VerifWrapWriters(nil, func(i rProto.WriterI) rProto.WriterI { return &countingFailIndex{WriterI: i, at: c.Pos, hit: &hit} })
 			}
